@@ -243,7 +243,7 @@ class RebuildCheck:
             return gs
         if self.id == "C14":
             for fam in FAMILIES:
-                for sh in ("S1", "D2n", "D3s", "D1n", "D2rr", "D1rr"):
+                for sh in ("S1", "D2n", "D3s", "D1n", "D2rr", "D1rr", "D3n"):
                     if sh == "D1n" and "v2" in fam.lower():
                         continue
                     gs.append({"kind": "prestate", "family": fam, "shape": sh,
@@ -657,6 +657,37 @@ class RebuildCheck:
                               {"kind": "prestate", "world": w, "family": fam,
                                "pre": list(pre), "decoy": dk, "seed": seed,
                                "quick": quick, "listing": order}, d))
+        if dk == "none" and all(p == "absent" for p in pre):
+            # one more step of the history: every candidate is replaced, at its
+            # own path and with its own size, by bytes that verify nowhere; the
+            # destination is emptied; the same metafile is rebuilt again in
+            # the same process.  Nothing may be placed.
+            fakes = set()
+            for i, (rel, data) in enumerate(files):
+                if data:
+                    fake = bytes((b ^ 0x5A) or 0x11 for b in data)
+                    world.write_file(placed[i], fake)
+                    fakes.add(fake)
+            shutil.rmtree(os.path.join(dest, name), ignore_errors=True)
+            if os.path.isfile(os.path.join(dest, name)):
+                os.remove(os.path.join(dest, name))
+            before = world.read_tree(dest)
+            with seams.listing_order(order, under=sb):
+                st, cnt = run_rebuild([mp], dirs, dest, "lib")
+            after = world.read_tree(dest)
+            res.transitions += 1
+            res.evals += 1
+            res.states += 1
+            res.validated += 1
+            bad = [list(rel) for rel, data in after.items()
+                   if before.get(rel) != data and data in fakes]
+            res.outcomes["swap:" + ("decoy-placed" if bad else "ok")] += 1
+            if bad:
+                found.append((f"C14|{fam}|all-different-decoy-placed|"
+                              f"after-candidate-swap|decoy={dk}",
+                              {"kind": "prestate", "world": w, "family": fam,
+                               "pre": list(pre), "decoy": dk, "seed": seed,
+                               "quick": quick, "listing": order}, bad))
         shutil.rmtree(sb, ignore_errors=True)
         return found
 
